@@ -263,6 +263,37 @@ def _cur(n):
     return ast.Call(ast.Attribute(ast.Call(ast.Name('locals', ast.Load()), [], []), 'get', ast.Load()), [ast.Constant(n), ast.Name('__pfv_UNBOUND', ast.Load())], [])
 
 
+class _ContinueToBreak(ast.NodeTransformer):
+    """inside the body of a loop that is being cut: `continue` ends the arbitrary iteration.  The body is wrapped as
+    `while True: <body>; break` and every `continue` of THIS loop becomes `break` (nested loops and functions are left alone);
+    a `break` of the cut loop itself is not supported."""
+    def __init__(self):
+        self.found = False
+
+    def visit_For(self, node):
+        return node
+
+    visit_While = visit_For
+    visit_AsyncFor = visit_For
+    visit_FunctionDef = visit_For
+    visit_Lambda = visit_For
+
+    def visit_Continue(self, node):
+        self.found = True
+        return ast.copy_location(ast.Break(), node)
+
+    def visit_Break(self, node):
+        raise Unsupported('break inside a cut loop')
+
+
+def _wrap_continue(body):
+    tr = _ContinueToBreak()
+    new = [tr.visit(st) for st in body]
+    if not tr.found:
+        return new
+    return [ast.While(ast.Constant(True), new + [ast.Break()], [])]
+
+
 class _Cutter(ast.NodeTransformer):
     def __init__(self, loops):
         self.loops = loops
@@ -365,7 +396,7 @@ class _Cutter(ast.NodeTransformer):
             pre.append(ast.Assign([ast.Name(n, ast.Store())],
                                   ast.Call(ast.Attribute(ast.Name('__pfv', ast.Load()), 'havoc', ast.Load()), [ast.Constant(k), ast.Constant(n), _cur(n), ast.Constant(n not in rebound)], [])))
         pre.append(ast.Expr(ast.Call(ast.Attribute(ast.Name('__pfv', ast.Load()), 'assume', ast.Load()), [ast.Constant(k), self._state(None)], [])))
-        body = list(node.body) + [ast.Expr(ast.Call(ast.Attribute(ast.Name('__pfv', ast.Load()), 'preserve', ast.Load()), [ast.Constant(k), self._state(None)], []))]
+        body = _wrap_continue(list(node.body)) + [ast.Expr(ast.Call(ast.Attribute(ast.Name('__pfv', ast.Load()), 'preserve', ast.Load()), [ast.Constant(k), self._state(None)], []))]
         cut = ast.If(node.test, body, [])
         return pre + [cut]
 
@@ -393,7 +424,7 @@ class _Cutter(ast.NodeTransformer):
         out.append(ast.Expr(P('assume_range', [ast.Constant(k), ast.Name(v, ast.Load()), ast.Name('__rng%d' % k, ast.Load())])))
         out.append(ast.Expr(P('assume', [ast.Constant(k), self._state(None)])))
         test = ast.Compare(ast.Name(v, ast.Load()), [ast.Lt()], [ast.Attribute(ast.Name('__rng%d' % k, ast.Load()), 'stop', ast.Load())])
-        node.body = self._with_abstractions(k, node.body)
+        node.body = _wrap_continue(self._with_abstractions(k, node.body))
         body = list(node.body) + [ast.Assign([ast.Name(v, ast.Store())], ast.BinOp(ast.Name(v, ast.Load()), ast.Add(), ast.Constant(1))),
                                   ast.Expr(P('preserve', [ast.Constant(k), self._state(None)]))]
         out.append(ast.If(test, body, []))
